@@ -1,0 +1,57 @@
+//go:build verif
+
+// Package peering: machine-checked contracts (comment-only; read by /verif/govc).
+package peering
+
+//@ type Peering
+//@   invariant wired [C13]: nonnil(self.instance)
+
+//@ type LinkBase
+//@   invariant wired [C13]: self.peering != nil && nonnil(self.conn)
+
+// ---- link frames (C05) ----------------------------------------------------------------------------
+// A link frame is  length(2) version(1) rate(1) seq(4) ack(4) | link data | MAC(16): at least 28 bytes.
+// The 12 header bytes are the AEAD nonce, everything after them is ciphertext and MAC: every byte is covered.
+
+//@ type state.EncryptionSession
+//@   ghost lastSealed ref
+//@   ghost lastSealedLen int
+//@   ghost lastUnsealed ref
+//@   ghost lastUnsealedLen int
+
+//@ func LinkFrame.Seal
+//@   requires encrypt != nil && len(f) >= 28
+//@   callsite AEAD.Seal nonce-is-header [C05]: base(arg1) == base(f) && off(arg1) == off(f) && len(arg1) == 12
+//@   callsite AEAD.Seal plaintext-is-link-data [C05]: base(arg2) == base(f) && off(arg2) == off(f) + 12 && len(arg2) == len(f) - 28
+//@   callsite AEAD.Seal in-place [C05]: base(arg0) == base(f) && off(arg0) == off(f) + 12 && len(arg0) == 0 && cap(arg0) >= len(f) - 12
+//@   callsite AEAD.Seal no-associated-data [C05]: len(arg3) == 0
+//@   update when result == nil: encrypt.lastSealed = base(f)
+//@   update when result == nil: encrypt.lastSealedLen = len(f)
+//@   ensures too-big-refused [C05]: len(f) > 65535 ==> result != nil
+
+//@ func LinkFrame.Unseal
+//@   requires encrypt != nil && len(f) >= 28
+//@   callsite AEAD.Open nonce-is-header [C05]: base(arg1) == base(f) && off(arg1) == off(f) && len(arg1) == 12
+//@   callsite AEAD.Open ciphertext-and-mac [C05]: base(arg2) == base(f) && off(arg2) == off(f) + 12 && len(arg2) == len(f) - 12
+//@   callsite AEAD.Open in-place [C05]: base(arg0) == base(f) && off(arg0) == off(f) + 12 && len(arg0) == 0
+//@   callsite AEAD.Open no-associated-data [C05]: len(arg3) == 0
+//@   callsite state.EncryptionSession.Check sequence-checked-after-authentication [C03,C05]: aead_ok
+//@   update when result == nil: encrypt.lastUnsealed = base(f)
+//@   update when result == nil: encrypt.lastUnsealedLen = len(f)
+
+//@ lemma link-frame-bytes-covered: forall n int, i int :: (28 <= n && 0 <= i && i < n) ==> ((0 <= i && i < 12) || (12 <= i && i < n))
+
+//@ func LinkBase.readLengthAndData
+//@   ensures framed [C05,C13]: result1 == nil ==> len(result0) >= 4 && len(result0) <= 65535 && off(result0) == 0 && cap(result0) >= len(result0) && fresh(base(result0))
+//@   invariant 1 read: 0 <= read && read <= 2
+//@   invariant 2 read: 0 <= read
+//@   invariant 3 read: 2 <= read && read <= dataLen && dataLen <= len(pooledSlice) && off(pooledSlice) == 0 && fresh(base(pooledSlice)) && 4 <= dataLen && dataLen <= 65535
+
+//@ func LinkBase.readFrame
+//@   requires b != nil
+//@   callsite frame.Builder.ParseFrame only-unsealed-data [C05]: link.encSession == nil || (link.encSession.lastUnsealed == base(arg1) && link.encSession.lastUnsealedLen == len(arg1) + 28 && off(arg1) == 12)
+//@   ensures frame [C05,C13]: result1 == nil ==> nonnil(result0) && result0.data != nil
+
+//@ func LinkBase.writeFrame
+//@   requires nonnil(f) && f.data != nil && f.builder != nil && f.dblReturnCheck == 0
+//@   callsite LinkBase.writeData sealed-when-link-encrypted [C05]: link.encSession == nil || (link.encSession.lastSealed == base(arg1) && link.encSession.lastSealedLen == len(arg1))
